@@ -83,7 +83,11 @@ def handle (toks : List String) (impl : String) : Verdict :=
         oracle := if impl = s!"ok {n} 0" then none else some s!"calendar says {n} cases, all must round-trip" }
     | _, _ => badOp "num"
   | ["validity", nb, na, now] =>
-    match parseInt nb, parseInt na, parseInt now with
+    -- `<n>+h` = n + 0.5 s: before notBefore iff n < notBefore; after notAfter iff n ≥ notAfter, i.e. the verdict at
+    -- n for a window ending one second earlier
+    let half := now.endsWith "+h"
+    let now := if half then (now.dropEnd 2).toString else now
+    match parseInt nb, (parseInt na).map (fun x => if half then x - 1 else x), parseInt now with
     | some nb, some na, some now =>
       let spec := if nb ≤ now ∧ now ≤ na then "ok" else if now < nb then "toonew" else "tooold"
       { model := some (showV (verifyAt ⟨nb, na⟩ now)),
